@@ -958,6 +958,17 @@ def run_mutants(verifier, c):
             seg = (sum(len(x) for x in lines[:fdef.lineno - 1]),
                    sum(len(x) for x in lines[:fdef.end_lineno]))
     killed, survivors, total = 0, [], 0
+    # a mutant counts as killed as soon as one obligation is not discharged: the obligations a
+    # mutation makes hard are not worth the full solver budget
+    saved_timeout = verifier.timeout_s
+    verifier.timeout_s = min(saved_timeout, 10)
+    try:
+        return _run_mutants(verifier, c, raw, seg, killed, survivors, total)
+    finally:
+        verifier.timeout_s = saved_timeout
+
+
+def _run_mutants(verifier, c, raw, seg, killed, survivors, total):
     for old, new in c.mutants:
         lo, hi = seg if seg else (0, len(raw))
         body = raw[lo:hi]
